@@ -375,11 +375,47 @@ def py_spec(hist, t2, first=False):
                 per.setdefault(i, []).append((k, v))
     out = {}
     for i, pubs in per.items():
+        if first == 'literal':
+            out[i] = pubs[0][1]                   # the statement as written: the first value published for the date (NaN if that was NaN)
+            continue
         if first:
             k0 = pubs[0][0]
             pubs = [p for p in pubs if p[0] == k0]
         out[i] = _fold([v for _, v in pubs])
     return out
+
+
+def _hist_of(lines):
+    """the publication history spelled by the merge lines of a case: [(stamp number k, [(date index, value | None)])]"""
+    hist = []
+    for l in lines:
+        sx = proto.parse(l)
+        if sx[1] == 'merge':
+            k = (proto.dec(sx[2]) - S0) // DAY // 2
+            hist.append((k, [((t - D0) // DAY, v) for t, v in _dec_ts(sx[3])]))
+    return hist
+
+
+def _k_first(f):
+    """what=0 after two or more publications of a date that share the date's FIRST stamp: the store keeps one row per (date, stamp)
+    - the value merged last (_drop_repeats, drop_duplicates(keep='last')) - so the first published value is gone.  Recognised: a
+    'law-read-first-literal' finding in which every date read differently from the first published value (a) has at least two
+    publications with its first stamp and (b) is read as the fold of exactly those publications."""
+    if f.case.get('tag') != 'law-read-first-literal':
+        return False
+    hist = _hist_of(f.case['lines'])
+    sx = proto.parse(f.case['lines'][-1])
+    t2 = None if sx[2] == 'N' else (proto.dec(sx[2]) - S0) // DAY
+    lit, fold = py_spec(hist, t2, 'literal'), py_spec(hist, t2, True)
+    got = {int(i): v for i, v in f.case['got']}
+    if set(got) != set(lit):
+        return False
+    odd = [i for i in got if got[i] != lit[i]]
+
+    def shared_first(i):
+        ks = [k for k, pairs in hist if (t2 is None or 2 * k <= t2) and any(j == i for j, _ in pairs)]
+        return len(ks) > 1 and ks[1] == ks[0]
+    return bool(odd) and all(got[i] == fold[i] and shared_first(i) for i in odd)
 
 
 def _read(store, t2, what, spelling=None):
@@ -403,6 +439,7 @@ def laws(rng, tier, ctx):
             store = None
             snaps = []
             bad = None
+            first_bad = None
             for j, (k, pairs) in enumerate(hist):
                 lines.append(merge_line(k, pairs))
                 store = bi_merge(store, Bi(_series([(date(i), v) for i, v in pairs]), stamp(2 * k)))
@@ -415,6 +452,15 @@ def laws(rng, tier, ctx):
                         if (got != want or n != len(want)) and bad is None:
                             bad = ('law-read-spec' if what == -1 else 'law-read-first', lines + [read_line(t, what)],
                                    'bi_read(asof=%s, what=%d) = %s but the publication log gives %s' % (t, what, got, want))
+                        if first:
+                            # the clause as written: the FIRST value published per date (known finding C17-K1 when several
+                            # publications share the date's first stamp)
+                            count += 1
+                            lit = py_spec(hist[:j + 1], t, 'literal')
+                            if got != lit and first_bad is None:
+                                first_bad = Finding('violation', dict(tag='law-read-first-literal', lines=lines + [read_line(t, 0)], atomic=True,
+                                                                     ordered=True, got=sorted(got.items())),
+                                                    'bi_read(asof=%s, what=0) = %s but the first values published are %s' % (t, got, lit))
             # the read time in another spelling is the same read time
             for t in T:
                 if t is not None:
@@ -455,7 +501,9 @@ def laws(rng, tier, ctx):
                                    're-merging version %d changed bi_read(asof=%s, what=%d): %s -> %s' % (j, t, what, a, b))
             if bad is not None:
                 yield Finding('violation', dict(tag=bad[0], lines=bad[1], atomic=True, ordered=True), bad[2])
+            if first_bad is not None:
+                yield first_bad
     yield count
 
 
-MATCHERS = {}
+MATCHERS = {'first_stamp_shared': _k_first}
